@@ -52,6 +52,9 @@ def case_strategy(draw, tier="quick"):
                                          (["value_counts"] if fam == "window" else [])))
         if op["agg"] == "value_counts":
             op["col"] = "y"
+        elif fam == "window":
+            # element-wise operation on the window before aggregating (a derived window)
+            op["derived"] = draw(st.sampled_from([None, None, "scale", "diff"]))
     elif fam == "expanding":
         op["agg"] = draw(st.sampled_from(["sum", "count", "mean", "var", "size"]))
     else:
@@ -75,7 +78,14 @@ def build(sdf, op, start, first):
         r = sdf.rolling(op["window"], with_state=True, start=() if first else start)[col]
         return getattr(r, a)()
     if f == "window":
-        w = sdf.window(with_state=True, start=None if first else start, **op["window"])[col]
+        w = sdf.window(with_state=True, start=None if first else start, **op["window"])
+        d = op.get("derived")
+        if d == "scale":
+            w = w[col] * 2
+        elif d == "diff":
+            w = w.x - w.y
+        else:
+            w = w[col]
         return w.size if a == "size" else getattr(w, a)()
     if f == "wgb":
         w = sdf.window(with_state=True, start=None if first else start, **op["window"])
@@ -110,7 +120,7 @@ def state_nonempty(state):
 def execute(case):
     t, cuts, op = case["table"], case["cuts"], case["op"]
     bs = dc.batches(t, cuts)
-    name = op["fam"] + "." + op["agg"]
+    name = op["fam"] + "." + op["agg"] + (("(" + op["derived"] + ")") if op.get("derived") else "")
     if isinstance(op.get("window"), dict):
         name += ":" + ("value" if "value" in op["window"] else "n")
     v = []
@@ -118,21 +128,28 @@ def execute(case):
     sdf = DataFrame(src, example=dc.example_frame(t, "two"))
     try:
         out = build(sdf, op, None, True).stream.sink_to_list()
-        states, results = [], []
+        states, results, live_states = [], [], []
         for b in bs:
             src.emit(b)
             s, r = split_out(op, out[-1])
             states.append(copy.deepcopy(s))
+            live_states.append(s)          # the emitted object itself, not a copy
             results.append(copy.deepcopy(r))
     except Exception as e:
         # the uninterrupted run itself failing is C06/C07/C11's business
         return Result([], nontrivial=False, classes=["uninterrupted-run-raised:" + type(e).__name__])
     nt = False
-    for k in range(len(bs) - 1):
+    # every cut is resumed three times: from a deep copy taken at emission time, from the emitted
+    # object itself after the uninterrupted run went on (it must not have been changed behind the
+    # user's back), and from that same object a second time (seeding a pipeline must not consume it)
+    plan = [(k, "copy") for k in range(len(bs) - 1)] + \
+           [(k, "live") for k in range(len(bs) - 1)] + [(k, "live-again") for k in range(len(bs) - 1)]
+    for k, how in plan:
         src2 = Stream()
         sdf2 = DataFrame(src2, example=dc.example_frame(t, "empty"))
         try:
-            out2 = build(sdf2, op, copy.deepcopy(states[k]), False).stream.sink_to_list()
+            seed_state = copy.deepcopy(states[k]) if how == "copy" else live_states[k]
+            out2 = build(sdf2, op, seed_state, False).stream.sink_to_list()
             got = []
             for b in bs[k + 1:]:
                 src2.emit(b)
@@ -150,7 +167,10 @@ def execute(case):
                 break
         if bad:
             j, r, g, e = bad
-            v.append(("%s:%s:resumed-result-differs" % (ID, name),
+            what = {"copy": "resumed-result-differs",
+                    "live": "emitted-state-changed-after-emission",
+                    "live-again": "seeding-a-pipeline-consumed-the-state"}[how]
+            v.append(("%s:%s:%s" % (ID, name, what),
                       "split %s rows %s%s: resumed after batch %d, result for batch %d is %s, "
                       "uninterrupted run gave %s: %s" % (
                           [len(b) for b in bs], t["rows"], (" ts %s" % t["ts"]) if "ts" in t else "",
